@@ -18,11 +18,12 @@ import dns.rdatatype
 import dns.set
 
 from bounded import _c10_model as M
+from bounded import _c11_glue as G
 from bounded.C10 import random_op
 
 BOUNDS = (
     "dns.versioned.Zone and dns.btreezone.Zone x relativize on/off. Seeded single-threaded "
-    "histories (quick: 700 histories of 20/40/60 steps; thorough: up to 12000 within 520 s) of: reader open (newest / "
+    "histories (quick: 700 histories of 20/40/60 steps; thorough: up to 12000 within 575 s) of: reader open (newest / "
     "by id over all ids ever committed +-1 / by serial over all serials ever used + unknown), "
     "reader close (rollback, commit, with-exit), writer begin (plain or replacement) / up to 6 "
     "random model operations / end by commit, rollback or exception, pruning-policy change "
@@ -40,8 +41,33 @@ BOUNDS = (
     "enumerated with dir() on the object and on a mutable twin, called with arguments drawn "
     "by parameter name; a call that changes the mutable twin must raise on the snapshot "
     "object, and no call may change the snapshot's deep fingerprint; attribute assignment and "
-    "deletion are tried on every @immutable object. Not covered: threads (C12), attribute "
-    "assignment on the B-tree container objects themselves, private attributes."
+    "deletion are tried on every @immutable object. Side-effect copies of the B-tree zone "
+    "(bounded/_c11_glue.py): dns.btreezone.Zone x relativize on/off over 9 owner names (apex, a cut "
+    "with 3 descendants one of them below a second cut, a cut with 1 descendant, a name sorting "
+    "directly after a subtree, an unrelated name), all present in an earlier committed version; "
+    "enumerated histories (quick 39, thorough 96): for each of 3 cuts P, every subset T of P's "
+    "descendants that the delegating transaction also writes, before or after storing the NS "
+    "(add / replace form), then a transaction removing the delegation in one of 4 ways (delete "
+    "type, delete name, delete the rdatas, replace+delete) while touching another subset, "
+    "optionally an unrelated commit in between; 6 nested-cut histories x relativize (cut below / "
+    "above an existing cut, removal of either, delete and re-create of a descendant); seeded "
+    "histories (quick 30 of 8-12 steps, thorough up to 4000 of 8-24 steps within 45 s) of "
+    "transactions of 1-5 operations biased to NS add/remove at 6 possible cuts and writes below "
+    "them, replacement transactions, rollbacks, readers by id, policy changes; earlier versions "
+    "stay retained (set_max_versions None/3/5 or a pinning reader). After every commit every "
+    "node of every retained version (found by reader(id=) over all ids ever committed) is "
+    "walked: is_immutable() is True; an explicit list of up to 15 node mutators (replace/delete/"
+    "find(create)/get(create), assignment and deletion of rdatasets/flags/id), 9 mutators of the "
+    "rdatasets container, 27 rdataset mutators, 7 item-map mutators and one rdata assignment "
+    "must each raise and leave the node's deep fingerprint (object identities, types, id, "
+    "flags, rdatasets, items) unchanged (full list the first time an object is seen in a "
+    "history, a reduced list of 11 on every later walk), and the walk as a whole must leave the "
+    "deep fingerprint of every retained version and open reader unchanged; the reflection "
+    "battery above is also run on the side-effect-copied nodes (quick: 8 snapshots). After "
+    "every step every retained version's content equals a dict model of the version it was "
+    "committed as and its deep fingerprint equals the one taken at commit. Not covered: "
+    "threads (C12), attribute assignment on the B-tree container objects themselves, private "
+    "attributes."
 )
 
 IN = dns.rdataclass.IN
@@ -419,9 +445,13 @@ class Surface:
                     )
                     return
 
-    def run(self, max_nodes=4):
+    def run(self, max_nodes=4, only=None):
+        """``only``: a set of owner names - the reflection battery is then run on exactly these
+        nodes of the snapshot (and their rdatasets), not on the version / map / index objects."""
         zone, version, txn = self.zone, self.version, self.txn
         mp = version.nodes
+        if only is not None:
+            return self._nodes([(name, node) for name, node in mp.items() if name in only], len(only), 8)
         # the version object
         vname = type(version).__name__
         self.battery(version, "version", None, None, vname)
@@ -473,7 +503,6 @@ class Surface:
             if self.fails:
                 return self.fails
         # nodes, rdatasets, item maps, rdatas
-        seen_nodes = 0
         objs = []
         for name, node in mp.items():
             objs.append((name, node))
@@ -488,6 +517,11 @@ class Surface:
                 self._rdataset(got, "ImmutableRdataset via Transaction.get")
                 if self.fails:
                     return self.fails
+        return self._nodes(objs, max_nodes, 3)
+
+    def _nodes(self, objs, max_nodes, max_rds):
+        zone = self.zone
+        seen_nodes = 0
         for name, node in objs:
             if seen_nodes >= max_nodes:
                 break
@@ -516,7 +550,7 @@ class Surface:
             if not isinstance(node.rdatasets, tuple):
                 self._fail(nname, "rdatasets", "mutable container", f"{nname}.rdatasets reachable from a reader is a {type(node.rdatasets).__name__}")
                 return self.fails
-            for rds in list(node.rdatasets)[:3]:
+            for rds in list(node.rdatasets)[:max_rds]:
                 self._rdataset(rds, type(rds).__name__)
                 if self.fails:
                     return self.fails
@@ -1038,13 +1072,82 @@ def _immut_one(R, kind, rel, base_id):
     return bool(fails), fails[0][1] if fails else "every mutating call raised and changed nothing", fails, unc
 
 
+# =================================================================== side-effect copies (B-tree zone)
+
+
+def _glue_surface(R):
+    """The reflection battery, restricted to the named nodes of a reader's snapshot."""
+
+    def fn(zone, txn, only, label):
+        s = Surface(R, zone, txn, None, label)
+        return list(s.run(only=only))
+
+    return fn
+
+
+def _glue_one(R, rel, steps, label, tot):
+    try:
+        h = G.run_steps(rel, steps, R, label, _glue_surface(R))
+    except M.Wedged:
+        R.note(f"C11 glue history {label}: zone wedged (write transaction left registered)")
+        return
+    except M.HarnessTimeout:
+        R.note(f"C11 glue history {label}: watchdog fired")
+        return
+    if h.lost:
+        R.note(f"C11 glue history {label}: writer abandoned, {h.lost}")
+    for k, v in h.stats.items():
+        tot[k] = tot.get(k, 0) + v
+    replay = {"check": "glue", "relativize": rel, "steps": h.steps}
+    for clause, what, sig in h.fails:
+        R.violation(clause, what, sig=sig, replay=replay)
+    return h
+
+
+def glue_pass(R):
+    """dns.btreezone.Zone: an earlier committed version holds names; later transactions add or
+    remove an NS delegation above them without (or while also) writing them; after every commit
+    every node of every retained version is walked (bounded/_c11_glue.py)."""
+    import random
+
+    tot = {}
+    fam = G.structured(R.quick)
+    done = 0
+    for label, rel, steps in fam:
+        if R.deadline():
+            break
+        h = _glue_one(R, rel, steps, label, tot)
+        if done < 1 and h is not None:
+            R.sample("C11.immutable", {"glue history": label, "relativize": rel, "steps": h.steps})
+        done += 1
+    # its own generator, derived from the seed only, so that the histories below are the same
+    # as they would be without this pass
+    rng = random.Random(f"C11.glue/{R.seed}")
+    n = 30 if R.quick else 4000
+    cap = R.elapsed() + (10 if R.quick else 45)
+    sdone = 0
+    for i in range(n):
+        if R.deadline() or R.elapsed() > cap:
+            break
+        rel = rng.random() < 0.5
+        steps = G.seeded(rng, rng.choice([8, 10, 12]) if R.quick else rng.choice([8, 12, 16, 24]))
+        _glue_one(R, rel, steps, ("glue", "seeded", i), tot)
+        sdone += 1
+    R.note(
+        f"C11 glue histories run: {done}/{len(fam)} enumerated + {sdone} seeded; {tot.get('walks', 0)} walks over {tot.get('versions', 0)} retained versions, "
+        f"{tot.get('nodes', 0)} (version, node) visits of which {tot.get('side_nodes', 0)} on nodes copied only as a side effect of a delegation change, "
+        f"{tot.get('calls', 0)} mutator calls"
+    )
+
+
 # =================================================================== entry points
 
 
 def run(R):
     R.guard("C11.immutable", immutability_pass, R)
+    R.guard("C11.immutable", glue_pass, R)
     n = 700 if R.quick else 12000
-    tcap = 32 if R.quick else 520
+    tcap = 40 if R.quick else 575
     variants = [("versioned", True), ("btree", True), ("versioned", False), ("btree", False)]
     done = 0
     for i in range(n):
@@ -1086,6 +1189,11 @@ def replay(data):
     if data.get("check") == "immutable":
         bad, detail, _f, _u = _immut_one(None, data["kind"], data["relativize"], data["base"])
         return bad, detail
+    if data.get("check") == "glue":
+        h = G.run_steps(data["relativize"], [list(st) for st in data["steps"]], None, None, _glue_surface(None))
+        if h.fails:
+            return True, h.fails[0][0] + ": " + h.fails[0][1]
+        return False, "every node of every retained version is immutable and unchanged" + (f" (writer abandoned: {h.lost})" if h.lost else "")
     h = Hist(data["kind"], data["relativize"])
     try:
         with M.watchdog(120):
